@@ -191,27 +191,29 @@ def masks():
     def dro_masks():
         rows_opts = [slice(None), 0, 1, slice(0, 2), [0, 2]]
         cols_opts = [slice(None), 0, 2, slice(1, 3), [0, 2]]
-        for (r1, c1), (r2, c2) in itertools.product(itertools.product(rows_opts, cols_opts), repeat=2):
+        for ((r1, c1), (r2, c2)), held in itertools.product(itertools.product(itertools.product(rows_opts, cols_opts), repeat=2), (False, True)):
             m = dro.Model(2)
             x = m.dvar(3)
             z = m.rvar(3)
+            # held: both slices are taken BEFORE the first declaration (a = x[r1]; b = x[r2]; a.adapt(..); b.adapt(..))
+            subs = [x[r1], x[r2]] if held else None
             want = np.zeros((3, 3), dtype=int)
-            for (r, cc) in ((r1, c1), (r2, c2)):
+            for k, (r, cc) in enumerate(((r1, c1), (r2, c2))):
                 blk = np.zeros((3, 3), dtype=int)
                 blk[np.ix_(np.arange(3)[r].reshape(-1), np.arange(3)[cc].reshape(-1))] = 1
                 overlap = bool((want & blk).any())
                 try:
-                    x[r].adapt(z[cc])
+                    (subs[k] if held else x[r]).adapt(z[cc])
                     raised = False
                 except RuntimeError:
                     raised = True
                 if raised != overlap:
-                    return f"x[{r}].adapt(z[{cc}]) raised={raised} overlap={overlap}"
+                    return f"x[{r}].adapt(z[{cc}]) raised={raised} overlap={overlap}" + (" (slices taken before the first declaration)" if held else "")
                 if not raised:
                     want |= blk
                 got = x.rand_adapt if x.rand_adapt is not None else np.zeros((3, 3), dtype=int)
                 if not np.array_equal(np.asarray(got, dtype=int), want):
-                    return f"mask {got.tolist()} expected {want.tolist()}"
+                    return f"mask {got.tolist()} expected {want.tolist()}" + (f" after a = x[{r1}]; b = x[{r2}]; a.adapt(z[{c1}]); b.adapt(z[{c2}])" if held else "")
         return True
     one("rsome.lp:DecVarSub.affadapt", "all pairs of (rows, cols) declarations on a 3x3 mask", dro_masks)
 
